@@ -26,6 +26,10 @@ class PatchwiseTransform(KDTransform):
     def is_kd_transform(self):
         return self.transform.is_kd_transform
 
+    def _scale_strength(self, factor):
+        if isinstance(self.transform, KDTransform):
+            self.transform.scale_strength(factor)
+
     def __call__(self, x, ctx=None):
         patches = self.patchify(x)
         ndim = (patches.ndim - 1) // 2
